@@ -18,8 +18,8 @@ ASSUMPTIONS = [
     "every worker first decodes every piece under the table {'?': 12} and then installs the default table, so totality is "
     "checked in a library with warm caches filled under a different table (C11 explores histories systematically)",
     "non-termination is observed as 'no result within a watchdog of 5 s + 1 s per 50 input characters'",
-    "the constraint state is observed through get_semantic_constraints() after every call and through the "
-    "module-state fingerprint once per shard",
+    "the constraint state is observed through get_semantic_constraints() after every call and through the current "
+    "table, the presets and the robust alphabet once per shard",
 ]
 
 PIECES = ["[C]", "[=O]", "[Branch1]", "[Ring1]", "[epsilon]", "[nop]", ".",
@@ -113,6 +113,12 @@ def worker_init():
     signal.signal(signal.SIGALRM, _alarm)
 
 
+def config_snapshot():
+    """the observable constraint configuration (behavioural, so internal memo tables of a refactored library do not matter)"""
+    return (_SF.get_semantic_constraints(), [_SF.get_preset_constraints(n) for n in ("default", "octet_rule", "hypervalent")],
+            sorted(_SF.get_semantic_robust_alphabet()))
+
+
 def innermost_selfies_frame(e):
     import traceback
     fr = [f for f in traceback.extract_tb(e.__traceback__) if "/selfies/" in f.filename]
@@ -176,8 +182,7 @@ def check(s, r, extra=None):
 def run(task):
     scope, arg = task
     r = Result()
-    from mc import hist_explorer
-    fp0 = hist_explorer.config_fingerprint()
+    fp0 = config_snapshot()
     if arg[0] == "strings":
         _, an, L, sh = arg
         w = None
@@ -205,9 +210,9 @@ def run(task):
                 break
         if lo == 0:
             r.sample({"scope": scope, "member": members[0][0], "input": members[0][1][:100]})
-    if hist_explorer.config_fingerprint() != fp0:
-        r.violation("module-constraint-state-changed", {"scope": scope, "shard": repr(arg)[:200]},
-                    "fingerprint of selfies.bond_constraints module-level tables changed during the shard")
+    if config_snapshot() != fp0:
+        r.violation("constraint-configuration-changed", {"scope": scope, "shard": repr(arg)[:200]},
+                    "current table / presets / robust alphabet differ after the shard's decoder calls")
     return r
 
 
